@@ -10,7 +10,7 @@ Import ListNotations.
 Theorem source_facts :
   Gen_Body.chunk_size_is_nbytes = Some true /\ Gen_Body.pool_passes_body_pos = Some true /\
   Gen_Body.pool_see_other_clears_body_pos = Some true /\ Gen_Body.manager_keeps_body_pos = Some true /\
-  Gen_Body.methods_not_expecting_body <> None.
+  Gen_Body.see_other_unchunks = Some true /\ Gen_Body.methods_not_expecting_body <> None.
 Proof. repeat split; try reflexivity. discriminate. Qed.
 Print Assumptions source_facts.
 
@@ -77,6 +77,15 @@ Proof.
 Qed.
 Print Assumptions resend_identical_one_shot_refuted.
 
+(* after a 303 the follow-up - urlopen's own recursive call, with GET, no body, the position forgotten and the chunked
+   flag dropped (see_other_unchunks) - is written without framing header and without a single body byte, whether or not
+   chunking had been asked for *)
+Theorem see_other_follow_up_is_unframed : forall via flag bs,
+  urlopen the_params via [AOk] GET BNone PNone (if Framing.see_other_unchunks the_params then false else flag) bs
+  = ([mkSent GET FrNone []], ROk).
+Proof. intros. vm_compute. reflexivity. Qed.
+Print Assumptions see_other_follow_up_is_unframed.
+
 (* non-vacuity: a seekable file, sent three times, identical each time; and the source facts matter - with the
    manager not handing the position on, or chunk sizes counted in items, the model shows the failure *)
 Definition a_file : body := BFile (mkFile false [104; 101; 108; 108; 111; 32; 119]%N 1 true true true true).
@@ -85,12 +94,12 @@ Example file_sent_three_times :
   snd r = ROk /\ map t_wire (fst r) = repeat [52; 13; 10; 101; 108; 108; 111; 13; 10; 50; 13; 10; 32; 119; 13; 10; 48; 13; 10; 13; 10]%N 3.
 Proof. vm_compute. split; reflexivity. Qed.
 Example manager_must_hand_the_position_on :
-  let P := mkParams (nbm the_params) true true true false in
+  let P := mkParams (nbm the_params) true true true false true in
   map t_wire (fst (urlopen P true [ARedirect false; AOk] POST a_file PNone false 4))
   = [[52; 13; 10; 101; 108; 108; 111; 13; 10; 50; 13; 10; 32; 119; 13; 10; 48; 13; 10; 13; 10]; [48; 13; 10; 13; 10]]%N.
 Proof. vm_compute. reflexivity. Qed.
 Example see_other_must_forget_the_position :
-  let P := mkParams (nbm the_params) true true false true in
+  let P := mkParams (nbm the_params) true true false true true in
   snd (urlopen P false [ARedirect true; AOk] POST a_file PNone false 4) = RErr EValueError.
 Proof. vm_compute. reflexivity. Qed.
 Example chunk_sizes_must_be_bytes :
